@@ -80,7 +80,7 @@ def _rs_forward(ctx, mir, sf) -> None:
     sym = mirsym.Sym(f, sf)
     can = Canon({"ordinal": "ORD", "i": "I"})
     hits = 0
-    for p in sym.run(0, lambda b: f.blocks[b].term.startswith("return")):
+    for p in sym.run(0, mirsym.NEVER):
         ret = p.state.get("_0")
         if not (isinstance(ret, ast.Call) and un(ret.func) == "Ok"):
             continue
@@ -228,7 +228,7 @@ def _week(ctx, mir, sf) -> None:
     sym = mirsym.Sym(f, sf)
     can = Canon({"iso_week": "W", "iso_day": "D", "iso_year": "Y"})
     r_atoms, r_formula = set(), set()
-    for p in sym.run(0, lambda b: f.blocks[b].term.startswith("return")):
+    for p in sym.run(0, mirsym.NEVER):
         for c, k in p.conds:
             cb = mirsym.cond_bool(c, k)
             if cb:
@@ -247,7 +247,7 @@ def _week(ctx, mir, sf) -> None:
     sym = mirsym.Sym(f2, sf)
     can2 = Canon({"ordinal": "ORD", "year": "Y"})
     seen = set()
-    for p in sym.run(0, lambda b: f2.blocks[b].term.startswith("return")):
+    for p in sym.run(0, mirsym.NEVER):
         ret = p.state.get("_0")
         if not (isinstance(ret, ast.Call) and un(ret.func) == "Ok" and isinstance(ret.args[0], ast.Tuple)):
             continue
@@ -359,7 +359,7 @@ def _offset(ctx, mir, sf) -> None:
     sym = mirsym.Sym(f, sf, atomic={"tzsign", "tzhour"})
     can = Canon({"val": "MIN"})
     vals = set()
-    for p in sym.run(min(starts), lambda b: f.blocks[b].term.startswith("return")):
+    for p in sym.run(min(starts), mirsym.NEVER):
         for k, v in p.state.items():
             if k.startswith("FIELD:") and ".7:" in k:
                 s = can.s(v)
